@@ -398,6 +398,33 @@ func c10Foreign(c *kit.Case) {
 		}
 	}
 	h.Revs = []kit.XRev{rev}
+	latest := map[uint32]kit.XAction{}
+	for num, a := range rev.Actions {
+		latest[num] = a
+	}
+	if kind != "table" && r.Chance(1, 3) {
+		// an incremental update with a cross-reference stream of its own: the
+		// older cross-reference stream stays an ordinary (never encrypted) object
+		rev2 := kit.XRev{Actions: map[uint32]kit.XAction{}, Kind: "stream", Extra: rev.Extra}
+		for i := 0; i < 1+r.Intn(3); i++ {
+			num := uint32(3 + r.Intn(n+2))
+			if old, ok := latest[num]; ok && old.Gen != 0 {
+				continue
+			}
+			if r.Bool() {
+				body := r.Bytes(r.Intn(200))
+				bodies[num] = body
+				rev2.Actions[num] = kit.XAction{Value: &kit.XStream{Dict: kit.XDict{"S": kit.XString("updated stream dict"), "N": int64(num)}, Raw: body}}
+			} else {
+				rev2.Actions[num] = kit.XAction{Value: kit.XArray{kit.XString("updated text " + fmt.Sprint(num)), int64(num)}}
+			}
+			latest[num] = rev2.Actions[num]
+		}
+		if len(rev2.Actions) > 0 {
+			h.Revs = append(h.Revs, rev2)
+			c.R.Count("foreign_files_with_incremental_update", 1)
+		}
+	}
 	encrypt := func(num uint32, g uint16, v any) any {
 		var enc func(v any) any
 		enc = func(v any) any {
@@ -458,7 +485,37 @@ func c10Foreign(c *kit.Case) {
 		if rd.GetMeta().Permissions != want && fl.rev != 2 {
 			c.Violationf("foreign/permissions/"+t.what+"/"+fl.name, "%s\nopened with the %s password: permissions %07b, expected %07b", ctx, t.what, int(rd.GetMeta().Permissions), int(want))
 		}
-		for num, a := range rev.Actions {
+		// the cross-reference streams are objects of the file too, and never encrypted
+		for _, num := range info.AuxNumbers {
+			got, err := rd.Get(pdf.NewReference(num, 0), true)
+			xs, ok := got.(*pdf.Stream)
+			if err != nil || !ok || xs.Dict["Type"] != pdf.Name("XRef") {
+				continue
+			}
+			ida, _ := xs.Dict["ID"].(pdf.Array)
+			if len(ida) != 2 || gen.Canon(ida[0]) != kit.XCanon(kit.XString(id0)) {
+				c.Violationf("foreign/xref-stream-dict/"+fl.name, "%s\ncross-reference stream %d read through Get has /ID %s, the file says %s", ctx, num, kit.Trunc(gen.Canon(xs.Dict["ID"]), 200), kit.XCanon(kit.XString(id0)))
+			}
+			rc, err := pdf.DecodeStream(rd, nil, xs)
+			var rows []byte
+			if err == nil {
+				rows, err = io.ReadAll(rc)
+				rc.Close()
+			}
+			wsum := 0
+			if wa, _ := xs.Dict["W"].(pdf.Array); len(wa) == 3 {
+				for _, x := range wa {
+					if xi, ok := x.(pdf.Integer); ok {
+						wsum += int(xi)
+					}
+				}
+			}
+			if err != nil || wsum == 0 || len(rows)%wsum != 0 || (xs.Dict["Filter"] == nil && !bytes.Contains(data, rows)) {
+				c.Violationf("foreign/xref-stream-data/"+fl.name, "%s\ncross-reference stream %d read through Get: %d bytes (%v), entries of %d bytes; the bytes do not occur in the file", ctx, num, len(rows), err, wsum)
+			}
+			c.R.Count("foreign_xref_streams_read_as_objects", 1)
+		}
+		for num, a := range latest {
 			if num <= 2 {
 				continue
 			}
